@@ -16,7 +16,7 @@ if [ ! -x /verif/ocaml/_build/driver ] || [ /verif/ocaml/gen/model.ml -nt /verif
    || [ /verif/ocaml/driver.ml -nt /verif/ocaml/_build/driver ]; then
   /verif/ocaml/build.sh
 fi
-for f in $(grep -o "theories/Props/C[0-9]*\.v" _CoqProject); do
+for f in $(grep -o "theories/Props/C[0-9]*[A-Za-z]*\.v" _CoqProject); do
   [ -f "$f" ] || continue
   b=$(basename "$f" .v)
   if [ ! -f "assumptions/$b.txt" ] || [ "theories/Props/$b.vo" -nt "assumptions/$b.txt" ]; then
